@@ -392,6 +392,26 @@ CommBShapes(df) ==
 (* decoded before.  <<offset, width>> of the header fields to vary.         *)
 CtxFields(df) == IF df \in {20, 21} THEN << <<19, 13>> >> ELSE <<>>
 
+(* Character areas (C01 / C08): where a shape holds, or where the decoder    *)
+(* may read, a run of 6-bit characters (Annex 10 Vol IV table 3-9):         *)
+(*   - BDS 0,8 (DF17/18, TC 1..4): 8 characters from ME bit 9;              *)
+(*   - BDS 2,0: 8 characters from MB bit 9, after the register number 0x20; *)
+(*   - BDS 2,1: 7 characters from MB bit 2, after a status bit, then a      *)
+(*     status bit (MB bit 44) and 2 characters from MB bit 45.               *)
+(* Every Comm-B payload is offered to the BDS 2,0 and 2,1 readers.  Each    *)
+(* area: frame bit offset, number of characters, and the fields (offset,    *)
+(* width, value) that make a reader look at the area.  The harness fills    *)
+(* the areas with spaces, digits, letters and undefined codes.              *)
+HasPin(s, off, w, V) == \E k \in 1..Len(s.pins) : s.pins[k][1] = off /\ s.pins[k][2] = w /\ s.pins[k][3] \in V
+CharAreas(s) ==
+  IF s.df \in {20, 21}
+  THEN << [off |-> 40, n |-> 8, en |-> << <<32, 8, 32>> >>],
+          [off |-> 33, n |-> 7, en |-> << <<32, 1, 1>> >>],
+          [off |-> 76, n |-> 2, en |-> << <<75, 1, 1>> >>] >>
+  ELSE IF s.df \in {17, 18} /\ HasPin(s, 32, 5, 1..4)
+  THEN << [off |-> 40, n |-> 8, en |-> <<>>] >>
+  ELSE <<>>
+
 AllShapes == BaseShapes \cup ESShapes(17) \cup ESShapes(18) \cup CommBShapes(20) \cup CommBShapes(21)
 
 (* ------------------------------------------------------------------ *)
